@@ -1,5 +1,19 @@
+(* C03 — property theorems only.  Each is closed by [exact]; see Sched/ProofsC03.v. *)
 From Coq Require Import List.
-From VV Require Import Sched.Model.
-Theorem C03_placeholder : forall c s, terminal s = true -> master_step c s = None.
-Proof. intros c s H. unfold terminal in H. unfold master_step. destruct (mp s); try discriminate; reflexivity. Qed.
-Print Assumptions C03_placeholder.
+From VV Require Import Sched.Model Sched.Defs Sched.ProofsC03.
+Import ListNotations.
+
+(* every graph incl. cyclic (order c = None), every junk-free initial environment, nworkers >= 1;
+   wf_cfg_or_cyclic c := wf_cfg c \/ (order c = None /\ 1 <= nworkers c) *)
+Theorem C03_no_deadlock :
+  forall c e0 st0 clk s, wf_cfg_or_cyclic c -> junk_free e0 -> reachable c e0 st0 clk s ->
+  terminal s = true \/ exists tid, tid <= nworkers c /\ enabled c s tid = true.
+Proof. exact no_deadlock. Qed.
+Print Assumptions C03_no_deadlock.
+
+Theorem C03_clean_exit :
+  forall c e0 st0 clk s, wf_cfg_or_cyclic c -> junk_free e0 -> reachable c e0 st0 clk s -> terminal s = true ->
+  queue s = [] /\ (forall w, w < nworkers c -> wp s w = WExited \/ (mp s = MRaised /\ wp s w = WNone))
+  /\ (mp s = MRaised <-> order c = None).
+Proof. exact clean_exit. Qed.
+Print Assumptions C03_clean_exit.
